@@ -168,11 +168,6 @@ theorem rmul_keeps_zero {n : Int} {e r : Equil α} (h : rmul n e = .ok r) (k : S
 theorem rmul_ok_iff (n : Int) (e : Equil α) :
     (∃ r, rmul n e = .ok r) ↔ n ≠ 0 ∧ (∃ k, e.net k ≠ 0) ∧ (n < 0 → e.K ≠ some 0) := rmul_isOk n e
 
-/-- the same for the multiplier as Python hands it over (`none` = not an integer: `str`, `None`, `complex`, `Decimal`, a
-    non-integral float / `Fraction` / numpy or sympy number): refused with `TypeError`, whatever the operand -/
-theorem rmul_any_ok_iff (m : Option Int) (e : Equil α) :
-    (∃ r, rmulPy m e = .ok r) ↔ ∃ n, m = some n ∧ n ≠ 0 ∧ (∃ k, e.net k ≠ 0) ∧ (n < 0 → e.K ≠ some 0) := rmulPy_isOk m e
-
 /-- the constructor with its default checks returns an equilibrium **iff** no coefficient is negative (0 is accepted) and
     some species has a non-zero net coefficient (inactive parts included) -/
 theorem constructor_ok_iff (d : Bool) (r p ir ip : List (String × Int)) (K : Option α) :
@@ -202,16 +197,26 @@ theorem expr_ok_iff (t : EqExpr α) (hl : ∀ p ∈ t.terms, p.1.NoInact) :
 
 /-! ### histories that use the same objects again -/
 
-/-- A history `v_k := n*v_i | -v_i | v_i + v_j | v_i - v_j` over a pool of operand objects, every statement free to use
-    any operand and any earlier result again: each statement's value is the value of the expression tree it denotes.
-    So `combo_spec`, `expr_ok_iff`, `combo_positive_iff` hold for every statement of every history. (In the model
-    objects are values; that the real objects are not changed by being used is tied by the `history` correspondence and
-    by the oracle's object-unchanged check, see `clauses_without_theorem`.) -/
-theorem history_spec (pool : List (Equil α)) (steps : List Step) (ts : List (EqExpr α))
-    (h : unfoldHistory (pool.map EqExpr.leaf) steps = some ts) :
-    runHistory (pool.map Except.ok) steps = ts.map EqExpr.eval := by
-  have := runHistory_unfold steps (pool.map EqExpr.leaf) ts h
-  simpa [List.map_map, Function.comp_def, EqExpr.eval] using this
+/-- Histories `v_k := n*v_i | -v_i | v_i + v_j | v_i - v_j` over a pool of operand objects, every statement free to use any operand
+    and any earlier result again: whatever a statement returns is the integer combination / constant product of the operands
+    of the expression tree it denotes (`combo_spec` transferred through the bridging lemma `runHistory_unfold`, which is
+    let-inlining in the pure model). That the REAL objects are not changed by being used is not a theorem
+    (`clauses_without_theorem`: `history` correspondence + the oracle's object-unchanged check). -/
+theorem history_combo (pool : List (Equil α)) (steps : List Step) (ts : List (EqExpr α))
+    (h : unfoldHistory (pool.map EqExpr.leaf) steps = some ts) (i : Nat) (t : EqExpr α) (r : Equil α)
+    (ht : ts[i]? = some t) (hr : (runHistory (pool.map Except.ok) steps)[i]? = some (.ok r))
+    (hl : ∀ p ∈ t.terms, p.1.NoInact) :
+    (∀ k, r.net k = (t.terms.map (fun p => p.2 * p.1.net k)).sum) ∧
+    (((∀ p ∈ t.terms, p.1.K = none) ∧ r.K = none) ∨
+     ((∀ p ∈ t.terms, p.1.K ≠ none) ∧ r.K = some ((t.terms.map (fun p => Kof p.1 ^ p.2)).prod))) := by
+  have hrun := runHistory_unfold steps (pool.map EqExpr.leaf) ts h
+  have hmap : (pool.map EqExpr.leaf).map EqExpr.eval = pool.map Except.ok := by
+    simp [List.map_map, Function.comp_def, EqExpr.eval]
+  rw [hmap] at hrun
+  rw [hrun, List.getElem?_map, ht] at hr
+  simp only [Option.map_some, Option.some.injEq] at hr
+  obtain ⟨h1, _, h3⟩ := combo_eval t r hr hl
+  exact ⟨h1, h3⟩
 
 /-! ### eliminate -/
 
@@ -235,6 +240,17 @@ theorem eliminate_spec (e1 e2 : Equil α) (wrt : String) (h1 : e1.net wrt ≠ 0)
   obtain ⟨m1, m2, he, hm1, hm2, hz⟩ := eliminate_pair e1 e2 wrt h1 h2
   exact ⟨m1, m2, he, hm1, hm2, hz, fun r1 r2 r hn1 hn2 hr1 hr2 hr =>
     eliminate_combination hz hn1 hn2 hr1 hr2 hr⟩
+
+/-- `eliminate` returns multipliers **iff** it gets at least one equilibrium and each has a non-zero net coefficient of the species
+    (`IndexError` for none, `ZeroDivisionError` otherwise) -/
+theorem eliminate_ok_iff (rs : List (Equil α)) (wrt : String) :
+    (∃ ms, eliminate rs wrt = .ok ms) ↔ rs ≠ [] ∧ ∀ e ∈ rs, e.net wrt ≠ 0 := eliminate_isOk rs wrt
+
+/-- any number of equilibria: one non-zero integer each, and the first combined with any other removes the species -/
+theorem eliminate_n (e0 : Equil α) (es : List (Equil α)) (wrt : String)
+    (h0 : e0.net wrt ≠ 0) (h : ∀ e ∈ es, e.net wrt ≠ 0) :
+    ∃ (m0 : Int) (ms : List Int), eliminate (e0 :: es) wrt = .ok (m0 :: ms) ∧ m0 ≠ 0 ∧
+      List.Forall₂ (fun m e => m ≠ 0 ∧ m0 * e0.net wrt + m * e.net wrt = 0) ms es := eliminate_many e0 es wrt h0 h
 
 /-! ### cancel / intdiv, as_reactions -/
 
@@ -260,6 +276,10 @@ theorem cancel_spec {self rxn : Equil α} {ks : List String} {c : Option Int}
     (∀ k ∈ ks, rxn.net k ≠ 0) ∧ (c = none ↔ ks = []) ∧
     (∀ r, c = some r → (∃ k ∈ ks, r = intdiv (-(self.net k)) (rxn.net k)) ∧
         ∀ k ∈ ks, r.natAbs ≤ (intdiv (-(self.net k)) (rxn.net k)).natAbs) := cancelWith_ok h
+
+/-- `cancel` returns (does not raise `ZeroDivisionError`) **iff** every species of `rxn` has a non-zero net coefficient in `rxn` -/
+theorem cancel_ok_iff (self rxn : Equil α) (ks : List String) :
+    (∃ c, cancelWith self rxn ks = .ok c) ↔ ∀ k ∈ ks, rxn.net k ≠ 0 := cancelWith_isOk self rxn ks
 
 /-- `as_reactions`: the pair is the forward and the backward direction of the equilibrium (inactive parts
     included) and the rate constants satisfy `kf = kb · K · c₀^(nb − nf)`, the given one being kept. -/
@@ -321,6 +341,17 @@ example : errOf (mkEqChecks true [("A", -1)] [("B", 1)] [] [] (some (2 : Rat)) n
 /-- a multiplier that is not an integer is refused; a rate constant with units without a `units` module too -/
 example : errOf (rmulPy none exA) = some "TypeError" ∧ errOf (asReactionsPy exA (some 3) none false true (1 : Rat)) = some "ValueError" ∧
     errOf (asReactionsPy exA (some 3) none true true (1 : Rat)) = none := by decide +kernel
+/-- expressions that are refused (`expr_ok_iff` is not vacuous on its negative side): complete cancellation, a zero constant reversed -/
+example : errOf (EqExpr.eval (.sub (.leaf exA) (.leaf exA))) = some "ValueError" ∧
+    errOf (EqExpr.eval (.neg (.leaf (⟨[("A", 1)], [("B", 1)], [], [], some 0⟩ : Equil Rat)))) = some "ZeroDivisionError" := by decide +kernel
+example : ¬ (EqExpr.Okay (.sub (.leaf exA) (.leaf exA))) := by
+  intro h
+  obtain ⟨r, hr⟩ := (expr_ok_iff (.sub (.leaf exA) (.leaf exA)) (by intro p hp; simp [EqExpr.terms] at hp; rcases hp with hp | hp <;> (rw [hp]; exact ⟨rfl, rfl⟩))).2 h
+  have : errOf (EqExpr.eval (.sub (.leaf exA) (.leaf exA))) = some "ValueError" := by decide +kernel
+  rw [hr] at this; cases this
+/-- three equilibria, and refusals of eliminate -/
+example : eliminate [exA, exB, exA] "Cd+2" = .ok [1, 4, -1] ∧ errOf (eliminate ([] : List (Equil Rat)) "X") = some "IndexError" ∧
+    errOf (eliminate [exA, exW] "Cd+2") = some "ZeroDivisionError" := by decide +kernel
 example : intdiv (-7) 2 = -3 ∧ intdiv 7 (-2) = -3 ∧ intdiv (-7) (-2) = 3 := by decide +kernel
 end examples
 
